@@ -115,10 +115,10 @@ fn new_driver(cfg: Config, ext: bool) -> Result<Driver, String> {
     if cfg.role_client || !ext {
         return Driver::new(cfg, false);
     }
+    // Driver::new has no switch for the extended CONNECT protocol: start from a plain driver and
+    // replace its endpoint and transport by a server built with enable_connect_protocol()
+    let mut d = Driver::new(cfg.clone(), false)?;
     let pipe = Pipe::new();
-    let wake_log: WakeLog = Arc::new(Mutex::new(Vec::new()));
-    let conn_task = Task::new(h2verif_harness::driver::T_CONN, &wake_log);
-    h2::verif::start();
     let mut b = server::Builder::new();
     if let Some(v) = cfg.max_header_list_size {
         b.max_header_list_size(v);
@@ -128,25 +128,17 @@ fn new_driver(cfg: Config, ext: bool) -> Result<Driver, String> {
     let mut fut = b.handshake::<_, Bytes>(pipe.clone());
     let conn = noop_poll(&mut fut, 8).ok_or_else(|| "server handshake did not complete".to_string())?.map_err(|e| format!("server handshake error {}", e))?;
     pipe.feed(&wire::settings(&cfg.peer_settings));
-    let mut d = Driver {
-        cfg,
-        pipe,
-        ep: Endpoint::Server { conn: Some(conn) },
-        handles: Vec::new(),
-        ping_pong: None,
-        wake_log,
-        conn_task,
-        tasks: std::collections::HashMap::new(),
-        out_buf: Vec::new(),
-        decoder: h2::verif::hpack::Decoder::new(4096),
-        step: 0,
-        want_snap: false,
-        conn_done: None,
-        trace: Vec::new(),
-        out_frames: Vec::new(),
-        preface_skipped: false,
-        pending_block: None,
-    };
+    d.ep = Endpoint::Server { conn: Some(conn) };
+    d.pipe = pipe;
+    d.handles.clear();
+    d.out_buf.clear();
+    d.out_frames.clear();
+    d.trace.clear();
+    d.conn_done = None;
+    d.preface_skipped = false;
+    d.pending_block = None;
+    d.decoder = h2::verif::hpack::Decoder::new(4096);
+    let _ = h2::verif::drain();
     d.finish_step(json!({"op":"handshake"}), json!("ok"));
     Ok(d)
 }
@@ -672,7 +664,8 @@ fn connect_request(rng: &mut Rng) -> (Vec<Field>, String, bool) {
 
 /// content-length field(s) + the DATA sequence relative to it; returns (fields to add, data frames, eos on head, label)
 fn body_plan(rng: &mut Rng) -> (Vec<Field>, Vec<(usize, bool)>, bool, String) {
-    let n = rng.below(60) as usize;
+    // small values often: the boundaries of the accounting are at 0 and 1
+    let n = if rng.chance(1, 2) { *rng.pick(&[0usize, 1, 1, 2, 3]) } else { rng.below(60) as usize };
     let split = |rng: &mut Rng, total: usize, end: bool| -> Vec<(usize, bool)> {
         let mut out = Vec::new();
         let mut left = total;
@@ -963,7 +956,7 @@ fn gen_case(rng: &mut Rng) -> Case {
         c.head_req = c.client && rng.chance(1, 6);
         c.ext = rng.chance(1, 3);
         c.cat.push("random".into());
-        let push = c.client && rng.chance(1, 5);
+        let push = rng.chance(1, 5);
         let head = random_fields(rng);
         if push {
             c.frames.push(Fr::PP { fields: head });
@@ -1034,6 +1027,10 @@ fn corpus() -> Vec<Case> {
     v.push(case(false, false, false, vec![h({ let mut r = req(); r.push(f(":status", "200")); r }, true)], ":status after regular? no, after pseudo"));
     v.push(case(false, false, false, vec![h({ let mut r = req(); r.push(f("host", "other.example")); r }, true)], "host differs from :authority"));
     v.push(case(true, true, false, vec![h(vec![f(":status", "200"), f("content-length", "abc")], true)], "HEAD response with non-numeric content-length"));
+    v.push(case(true, false, false, vec![h(vec![f(":status", "200"), f("content-length", "1")], true)], "content-length 1, END_STREAM on HEADERS"));
+    v.push(case(false, false, false, vec![h({ let mut r = req(); r[0] = f(":method", "POST"); r.push(f("content-length", "1")); r }, true)], "request content-length 1, END_STREAM on HEADERS"));
+    v.push(case(true, false, false, vec![h(vec![f(":status", "200"), f("content-length", "1")], false), Fr::D { len: 2, eos: true }], "content-length 1, two octets"));
+    v.push(case(true, false, false, vec![h(vec![f(":status", "200"), f("content-length", "2")], false), Fr::D { len: 1, eos: true }], "content-length 2, one octet"));
     v.push(case(true, true, false, vec![h(vec![f(":status", "200"), f("content-length", "3"), f("content-length", "5")], true)], "HEAD response with conflicting content-length"));
     v.push(case(true, false, false, vec![Fr::PP { fields: { let mut r = req(); r.push(f("content-length", "0")); r.push(f("content-length", "5")); r } }, h(vec![f(":status", "200")], true)], "push with conflicting content-length 0 and 5"));
     v.push(case(true, false, false, vec![Fr::PP { fields: { let mut r = req(); r.push(f("content-length", "")); r } }, h(vec![f(":status", "200")], true)], "push with empty content-length"));
